@@ -33,11 +33,11 @@ def plan(tier, seed):
         b = ("all histories of length 2 over 3 names (+ a bytes alias; new names also a bytes name and the empty string) x 2 "
              "definitions; all histories of length 3 over 2 names that start with addfilter (every edit changes the content)")
     else:
-        conds = hist_conds("c12", 3, 2400, by_name=True, nd=1)
-        conds += hist_conds("c12", 2, 600, by_name=True, nd=3)
-        conds += hist_conds("c12", 4, 2400, by_name=True, nn=2, nd=1)
-        b = ("all histories of length 3 over 3 names (+ bytes alias, bytes and empty new names), every edit changing the content; "
-             "length 2 with 3 definitions; all histories of length 4 over 2 names")
+        conds = hist_conds("c12", 3, 1500, by_name=True, nn=2, nd=1)
+        conds += hist_conds("c12", 2, 900, by_name=True, nd=3)
+        conds += [c for c in hist_conds("c12", 4, 1500, by_name=True, nn=2, nd=1) if "-add-" in c.name]
+        b = ("all histories of length 2 over 3 names (+ bytes alias, bytes and empty new names) x 3 definitions; all histories of "
+             "length 3 over 2 names, every edit changing the content; histories of length 4 over 2 names that start with addfilter")
     conds.append(Cond("c12-vacuity", F, "hist2", env={"C12_MODE": "c12"}, timeout=90, vacuity=True))
     meta = dict(functions=FUNCS,
                 bounds={"histories": b, "pool": "7 editing operations (getfilter / is_filter_disabled are probed for every filter after every step) x names "
